@@ -378,6 +378,16 @@ class FactSet:
         self.records = raw['records']
         self.enums = raw['enums']
         self.init_h = raw.get('init_h')
+        if not raw.get('_normalised') and not os.environ.get('ORV_NO_NORMALISE'):
+            from .normalize import normalise
+            root = REPO.rstrip('/') + '/'
+            for v in raw['functions'].values():
+                if v.get('body') and (v.get('loc') or '').startswith(root):
+                    v['body'] = normalise(v['body'])
+                    for io in v.get('inits') or ():
+                        if isinstance(io.get('init'), dict):
+                            io['init'] = normalise(io['init'])
+            raw['_normalised'] = True
         self.fns = {k: Fn(v) for k, v in raw['functions'].items()}
         self.by_name = {}
         for f in self.fns.values():
